@@ -40,6 +40,12 @@ func (e *Ex) String() string {
 			as = append(as, a.String())
 		}
 		return e.Name + "(" + strings.Join(as, ", ") + ")"
+	case "mcall":
+		var as []string
+		for _, a := range e.Args[1:] {
+			as = append(as, a.String())
+		}
+		return e.Args[0].String() + "." + e.Name + "(" + strings.Join(as, ", ") + ")"
 	case "index":
 		return e.Args[0].String() + "[" + e.Args[1].String() + "]"
 	case "slice":
@@ -337,6 +343,10 @@ func (p *parser) postfix(e *Ex) *Ex {
 			p.expect(")")
 			name := exName(e)
 			if name == "" {
+				if e.Op == "sel" { // method call on a computed receiver: X.m(args)
+					e = &Ex{Op: "mcall", Name: e.Name, Args: append([]*Ex{e.Args[0]}, args...), Pos: e.Pos}
+					continue
+				}
 				p.fail("call of non-name at %d", e.Pos)
 			}
 			e = &Ex{Op: "call", Name: name, Args: args, Pos: e.Pos}
